@@ -972,7 +972,7 @@ func TestC09(t *testing.T) {
 	if !res.Done {
 		run.ChildCrashed(res, "C09/racing", nil)
 	}
-	code := run.Finish("a real stack with two interfaces (three IPv4 addresses) holds a PRNG-built set of 1-10 sockets over three ports: UDP bound to the wildcard / a specific address / an interface, UDP connected with and without naming the interface, TCP listeners on the wildcard or a specific address; some are closed again and one address may be removed. Then the full cross product (interface x destination address incl. a foreign one x destination port incl. an unused one x three sources x two source ports) is injected as UDP datagrams with unique payloads and, for a third of it, as TCP SYNs. After each UDP packet every socket is read: the payload must be on exactly the socket chosen by an independent reference matcher (interface owns the destination address; per-interface registrations before global ones; 4-tuple > connected > specific local address > port only) or nowhere. A SYN must draw exactly one SYN-ACK when a listener matches, exactly one reset when nothing matches, and nothing when the address is not assigned. Racing phase (real time, pinned toolchain, race detector): two goroutines keep opening, draining and closing UDP sockets bound to two addresses of one port while a third injects uniquely numbered datagrams; a datagram may be returned by at most one socket, only by one bound to its destination address, and never by a socket whose owner had decided to close it before the datagram was injected (logical stamps). distinct = socket-set shapes Later additions: Multicast memberships (joined before/after bind, left, socket closed unbound) with group addresses among the probed destinations; the registration table raced directly (at most one holder of an endpoint id). Every fourth probed datagram arrives in two fragments behind a fragment of another host's datagram with the same identification.",
+	code := run.Finish("a real stack with two interfaces (three IPv4 addresses) holds a PRNG-built set of 1-10 sockets over three ports: UDP bound to the wildcard / a specific address / an interface, UDP connected with and without naming the interface, TCP listeners on the wildcard or a specific address; some are closed again and one address may be removed. Then the full cross product (interface x destination address incl. a foreign one x destination port incl. an unused one x three sources x two source ports) is injected as UDP datagrams with unique payloads and, for a third of it, as TCP SYNs. After each UDP packet every socket is read: the payload must be on exactly the socket chosen by an independent reference matcher (interface owns the destination address; per-interface registrations before global ones; 4-tuple > connected > specific local address > port only) or nowhere. A SYN must draw exactly one SYN-ACK when a listener matches, exactly one reset when nothing matches, and nothing when the address is not assigned. Racing phase (real time, pinned toolchain, race detector): two goroutines keep opening, draining and closing UDP sockets bound to two addresses of one port while a third injects uniquely numbered datagrams; a datagram may be returned by at most one socket, only by one bound to its destination address, and never by a socket whose owner had decided to close it before the datagram was injected (logical stamps). distinct = socket-set shapes Later additions: Interfaces made promiscuous or told that they own a subnet (10.0.1.192/26), left on or switched off again after a few admitted datagrams; an address inside and one outside the subnet are among the probed destinations. A listener bound to a specific address whose SYN was admitted on another interface is judged only for 'one SYN-ACK or one reset'. Multicast memberships (joined before/after bind, left, socket closed unbound) with group addresses among the probed destinations; the registration table raced directly (at most one holder of an endpoint id). Every fourth probed datagram arrives in two fragments behind a fragment of another host's datagram with the same identification.",
 		[]string{"reference matcher in h/c09 written from the statement", "a removed address that an open socket is still bound/connected to is reported under its own key"})
 	os.Exit(code)
 }
